@@ -12,6 +12,7 @@ Decides (structural):
   R11 no `L`-suffixed numbers
 Not decided: that emitted text parses and binds in each engine.
 """
+import re
 import json
 import os
 
@@ -154,6 +155,15 @@ def r2(ctx, rep):
     second = show_stmts(ifs[1]["t"]) if len(ifs) > 1 else ""
     order_ok = ("dialect.to_string()" in txt and "func_def = module.get(&operator_ident)" in first
                 and second_c == "func_def.is_none()" and "func_def = std().get(&operator_ident)" in second)
+    if not order_ok:
+        # the same order written with combinators: `<dialect module>.and_then(|m| .. m.get(&operator_ident)).or_else(|| std().get(&operator_ident))`
+        import alpha
+        Af = alpha.Inliner(fi, maxdepth=16, max_inline=6)
+        for n in walk(fi["body"]):
+            if n.get("k") == "try":
+                v = Af.show(n["e"])
+                if re.search(r"^std\(\)\.get\(&pl::Ident::from_name\(dialect\.to_string\(\)\)\)\.and_then\(\|_c0\| \{? ?_c0\..*\.get\(&(?P<k>.+?)\) ?\}?\)\.or_else\(\|\| std\(\)\.get\(&(?P=k)\)\)$", v):
+                    order_ok = True
     rep.check(order_ok, "lookup-order",
               "find_operator_impl must look in the dialect module first and fall back to the base module", file=fi["file"], line=fi["l"], fn=fi["path"])
 
@@ -455,6 +465,38 @@ def can_materialize_shape(syn):
     compute = prm[0] if prm else "compute"
     want_fold = f".filter(|_c0| (_c0.col == {compute}.id)).fold(Complexity::highest(), |_c0, _c1| Complexity::min(_c0, _c1.max_complexity))"
     ok = first == f"(infer_complexity({compute}) <= {second})" and second.endswith(want_fold)
+    if not ok:
+        # the same minimum written as a loop: `let mut m = Complexity::highest(); for r in reqs { if r.col == compute.id { m = Complexity::min(m, r.max_complexity) } }`
+        import guards
+        reqs = prm[1] if len(prm) > 1 else "inputs_required"
+        par = guards.parents(cm["body"])
+        for st in cm["body"]["s"]:
+            if st.get("k") == "local" and st["pat"].get("k") == "p_ident" and st["pat"].get("mut") and show(st.get("init")) == "Complexity::highest()":
+                m = st["pat"]["n"]
+                if first != f"(infer_complexity({compute}) <= {m})" or second != m:
+                    continue
+                writes = [n for n in walk(cm["body"]) if n.get("k") == "assign" and show(n["lhs"]) == m]
+                good = bool(writes)
+                for w in writes:
+                    rhs = show(w["rhs"], maxdepth=8)
+                    # enclosing loop over the requirements and the filter on this compute's id
+                    loop, cond, cur = None, [], w
+                    while id(cur) in par:
+                        cur = par[id(cur)]
+                        if cur.get("k") == "if" and cur.get("e") is None:
+                            cond.append(show(cur["c"], maxdepth=8).strip("()"))
+                        if cur.get("k") == "for":
+                            loop = cur
+                            break
+                    if loop is None:
+                        good = False
+                        continue
+                    r_ = show(loop["pat"])
+                    it = show(loop.get("iter", loop.get("e")), maxdepth=6)
+                    good = good and it in (reqs, f"{reqs}.iter()", f"&{reqs}") and rhs in (f"Complexity::min({m}, {r_}.max_complexity)", f"Complexity::min({r_}.max_complexity, {m})",
+                                                                                           f"{m}.min({r_}.max_complexity)") \
+                        and cond in ([f"{r_}.col == {compute}.id"], [f"{compute}.id == {r_}.col"])
+                ok = good
     return ok, f"found `{first[:200]}`"
 
 
